@@ -326,6 +326,35 @@ impl<'tcx> Cx<'tcx> {
                         }
                     }
                 }
+                // reference to a constant (promoted `&CONST`, `&[1, 2, 3]`): the pointee's bytes
+                if let ty::Ref(_, inner, _) = t.kind() {
+                    let sized_ok = !matches!(inner.kind(), ty::Slice(_) | ty::Str | ty::Dynamic(..));
+                    if sized_ok {
+                        if let Ok(l) = self.tcx.layout_of(env.as_query_input(*inner)) {
+                            let sz = l.size.bytes() as usize;
+                            if sz > 0 && sz <= 4096 {
+                                if let Ok(cv) = c.const_.eval(self.tcx, env, c.span) {
+                                    if let ConstValue::Scalar(rustc_middle::mir::interpret::Scalar::Ptr(ptr, _)) = cv {
+                                        let (prov, off) = ptr.into_raw_parts();
+                                        let aid = prov.alloc_id();
+                                        if let Some(rustc_middle::mir::interpret::GlobalAlloc::Memory(m)) = self.tcx.try_get_global_alloc(aid) {
+                                            let a = m.inner();
+                                            let start = off.bytes() as usize;
+                                            if start + sz <= a.len() && a.provenance().ptrs().is_empty() {
+                                                let bytes = a.inspect_with_uninit_and_ptr_outside_interpreter(start..start + sz);
+                                                o.push_str(",\"pbytes\":\"");
+                                                for b in bytes {
+                                                    let _ = write!(o, "{:02x}", b);
+                                                }
+                                                o.push('"');
+                                            }
+                                        }
+                                    }
+                                }
+                            }
+                        }
+                    }
+                }
                 // named constant?
                 if let Const::Unevaluated(u, _) = c.const_ {
                     if u.promoted.is_none() {
@@ -528,6 +557,22 @@ impl<'tcx> Cx<'tcx> {
             if matches!(kind, DefKind::Closure) {
                 let _ = write!(o, ",\"parent\":{}", js(&self.path(tcx.typeck_root_def_id(did))));
             }
+        }
+        if matches!(kind, DefKind::Fn | DefKind::AssocFn | DefKind::Closure) {
+            let g = tcx.generics_of(did);
+            o.push_str(",\"generics\":[");
+            let mut first = true;
+            for i in 0..g.count() {
+                let pa = g.param_at(i, tcx);
+                if matches!(pa.kind, ty::GenericParamDefKind::Type { .. }) {
+                    if !first {
+                        o.push(',');
+                    }
+                    first = false;
+                    o.push_str(&js(pa.name.as_str()));
+                }
+            }
+            o.push(']');
         }
         let _ = write!(o, ",\"file\":{}", js(&self.file(body.span)));
         let sm = tcx.sess.source_map();
